@@ -167,6 +167,21 @@ def serializer_case(ser, sername, a, v):
     return tr
 
 
+def _reset_type_replacements(serializers, types):
+    """take the harness's type replacements out again (the library has no call for it: the tables are reached by their names)"""
+    import serpent
+    for t in types:
+        for cls in (serializers.JsonSerializer, serializers.MsgpackSerializer, serializers.SerializerBase):
+            for attr in ("_JsonSerializer__type_replacements", "_MsgpackSerializer__type_replacements", "_type_replacements"):
+                table = getattr(cls, attr, None)
+                if isinstance(table, dict):
+                    table.pop(t, None)
+        try:
+            serpent.unregister_class(t)
+        except Exception:
+            pass
+
+
 def make_echo(record):
     import Pyro5.api as P
 
@@ -217,8 +232,12 @@ def network_cases(jobs):
             try:
                 p = proxies.get(sername)
                 if p is None or p._pyroConnection is None:
-                    p = proxies[sername] = P.Proxy(uri)
+                    p = P.Proxy(uri)
                     p._pyroSerializer = "serpent" if sername == "serpentb" else sername
+                    if sername in ("json", "marshal", "serpentb"):
+                        import copy as _copy
+                        p = _copy.copy(p)          # a copy of a proxy talks the way the original was told to
+                    proxies[sername] = p
                     p._pyroBind()
                 record.clear()
                 pr, got, ok = pos("result", lambda: p.echo(v, k=v, pad=pad))
@@ -389,6 +408,19 @@ def run(ctx):
             jobs.append(("serpentb", a, v, bool(i % 2), pads[i % len(pads)]))
     traces += network_cases(jobs)
     traces += concurrent_cases(ctx.pick(40, 400))
+    # what the application tells one serializer about a type of its own is that serializer's business: the others map as before
+    for only in ("json", "msgpack", "serpent"):
+        serializers.serializers[only].register_type_replacement(uuid.UUID, lambda u: u.int)
+        try:
+            sub = [(a, v) for a, v in concrete if "uuid" in json.dumps(a)][:ctx.pick(40, 300)]
+            for a, v in sub:
+                for sername, ser in sorted(serializers.serializers.items()):
+                    if sername != only:
+                        tr = serializer_case(ser, sername, a, v)
+                        tr["level"] = "other-serializer-customised"
+                        traces.append(tr)
+        finally:
+            _reset_type_replacements(serializers, (uuid.UUID,))
     for tr in traces:
         bare = not tr["v"]["c"] and tr["v"]["k"] in ("none", "bool", "int", "float", "str")
         ctx.count(None if bare else json.dumps([tr["ser"], tr["v"], tr["level"], tr["comp"]], sort_keys=True))
